@@ -4,6 +4,7 @@
 #pragma once
 
 #include <cmath>
+#include <limits>
 #include "../common.h"
 #include "../math/vec.h"
 #include "detail/pcg_random.hpp"
@@ -55,7 +56,13 @@ namespace rkcommon {
       template <class G>
       T operator()(G &g)
       {
-        const T scale = (u - l) / T(g.max() - g.min());
+        const T range = T(g.max() - g.min());
+        const T scale = (u - l) / range;
+        // a subnormal scale has lost most of its precision: for such narrow
+        // ranges normalize the draw first (results for all other ranges are
+        // unchanged)
+        if (scale != T(0) && std::abs(scale) < std::numeric_limits<T>::min())
+          return l + (T(g() - g.min()) / range) * (u - l);
         return l + (g() - g.min()) * scale;
       }
 
